@@ -18,6 +18,7 @@ import (
 	pb "massnet.org/mass-wallet/api/proto"
 )
 
+//go:norace
 func init() { Runners["C19"] = runC19 }
 
 // fz is the request generator of C19: every argument is drawn either from the
@@ -44,12 +45,14 @@ type fz struct {
 	mis int
 }
 
+//go:norace
 func (f *fz) bad() bool { return f.mis > 0 && f.t.Bool(f.mis) }
 
 var badStrings = []string{"", " ", "0", "ms1qq", "ms1qqqqqqqqqqqqqqqqqqqqqqqqqqqqqqqqqqqqqqqqqqqqqqqqqqqqqq", "\x00", "ÿÿÿ", "ac10", "ms1q" + strings.Repeat("q", 300), strings.Repeat("9", 70), "null", "-1", "{}", "0x00", strings.Repeat("ab", 32), strings.Repeat("zz", 32), strings.Repeat("00", 32), strings.Repeat("ff", 31)}
 
 var amountStrings = []string{"0", "1", "0.5", "0.00000001", "0.000000001", "1.00000000", "20", "2000", "206438400", "206438401", "99999999999999999999", "-1", "-0.5", "", "abc", "1e3", "1,5", ".5", "5.", "0x10", " 1", "1 ", "NaN", "+1"}
 
+//go:norace
 func (f *fz) pick(ss []string) string {
 	if len(ss) == 0 {
 		return ""
@@ -58,6 +61,8 @@ func (f *fz) pick(ss []string) string {
 }
 
 // walletAddrs returns issued addresses of every wallet of the instance.
+//
+//go:norace
 func (f *fz) walletAddrs(staking int) []string {
 	var out []string
 	for _, id := range f.inst.SortedWalletIDs() {
@@ -70,6 +75,7 @@ func (f *fz) walletAddrs(staking int) []string {
 	return out
 }
 
+//go:norace
 func (f *fz) strangerAddrs() []string {
 	var out []string
 	for _, p := range f.w.Gen.Parties {
@@ -85,6 +91,7 @@ func (f *fz) strangerAddrs() []string {
 	return out
 }
 
+//go:norace
 func (f *fz) bindingTargets() []string {
 	var out []string
 	for i := 0; i < 3; i++ {
@@ -98,6 +105,8 @@ func (f *fz) bindingTargets() []string {
 }
 
 // addr draws an address-like string.
+//
+//go:norace
 func (f *fz) addr() string {
 	if !f.bad() {
 		// an address that fits: of the selected wallet, of another wallet, of a stranger
@@ -148,6 +157,7 @@ func (f *fz) addr() string {
 	return f.pick(badStrings)
 }
 
+//go:norace
 func (f *fz) addrs(max int) []string {
 	n := f.t.Weighted([]int{2, 5, 3, 1})
 	if n == 3 {
@@ -164,6 +174,8 @@ func (f *fz) addrs(max int) []string {
 }
 
 // txids of every kind the world knows plus malformed ones.
+//
+//go:norace
 func (f *fz) txid() string {
 	n := f.w.Node
 	n.mu.Lock()
@@ -188,6 +200,8 @@ func (f *fz) txid() string {
 
 // outpoint draws (txid, vout): unspent wallet coins, foreign coins, spent
 // outputs, outputs of pending transactions, out-of-range indexes.
+//
+//go:norace
 func (f *fz) outpoint() (string, uint32) {
 	g := f.w.Gen
 	view := sortedCoins(g.utxoAt(f.w.Node.Tip()))
@@ -225,6 +239,7 @@ func (f *fz) outpoint() (string, uint32) {
 	return f.txid(), uint32(f.t.Int(4))
 }
 
+//go:norace
 func (f *fz) inputs() []*pb.TransactionInput {
 	n := f.t.Weighted([]int{1, 6, 4, 2})
 	var out []*pb.TransactionInput
@@ -242,6 +257,7 @@ func (f *fz) inputs() []*pb.TransactionInput {
 	return out
 }
 
+//go:norace
 func (f *fz) amount() string {
 	if !f.bad() {
 		return []string{"0.001", "0.01", "0.05", "0.1", "0.3", "1", "10", "2048", "0.0001", "0.00001"}[f.t.Int(10)]
@@ -249,6 +265,7 @@ func (f *fz) amount() string {
 	return f.pick(amountStrings)
 }
 
+//go:norace
 func (f *fz) amounts() map[string]string {
 	n := f.t.Weighted([]int{1, 6, 3, 1})
 	m := map[string]string{}
@@ -258,6 +275,7 @@ func (f *fz) amounts() map[string]string {
 	return m
 }
 
+//go:norace
 func (f *fz) walletID() string {
 	ids := f.inst.SortedWalletIDs()
 	if !f.bad() && len(ids) > 0 {
@@ -276,6 +294,7 @@ func (f *fz) walletID() string {
 	return f.pick(badStrings)
 }
 
+//go:norace
 func (f *fz) passphrase() string {
 	if !f.bad() {
 		if ws := f.inst.Wallets[f.inst.Current]; ws != nil {
@@ -293,6 +312,7 @@ func (f *fz) passphrase() string {
 	return "wrongPass1"
 }
 
+//go:norace
 func (f *fz) lockTime() uint64 {
 	if !f.bad() {
 		return []uint64{0, 0, 0, 1, 5, 30}[f.t.Int(6)]
@@ -302,6 +322,8 @@ func (f *fz) lockTime() uint64 {
 
 // txHex draws transaction bytes in hex: drafts the wallet built, crafted
 // transactions whose inputs are of every kind, and damaged encodings.
+//
+//go:norace
 func (f *fz) txHex() string {
 	if !f.bad() {
 		if len(f.hexes) > 0 && f.t.Bool(60) {
@@ -334,6 +356,7 @@ func (f *fz) txHex() string {
 	return f.pick(badStrings)
 }
 
+//go:norace
 func (f *fz) craftedTx() string {
 	tx := wire.NewMsgTx()
 	if len(f.hexes) > 0 && f.t.Bool(50) {
@@ -400,6 +423,7 @@ type apiCall struct {
 	make   func(f *fz) (interface{}, func() (interface{}, error))
 }
 
+//go:norace
 func (f *fz) calls() []apiCall {
 	ctx := context.Background()
 	s := f.srv
@@ -653,10 +677,10 @@ func (f *fz) calls() []apiCall {
 		{"ImportMnemonic", 3, func(f *fz) (interface{}, func() (interface{}, error)) {
 			r := &pb.ImportMnemonicRequest{Mnemonic: f.pick(f.mnemonics), Passphrase: f.passphrase(), Remarks: "x",
 				ExternalIndex: []uint32{0, 1, 3, 20, 100}[f.t.Int(5)], InternalIndex: []uint32{0, 0, 1, 7}[f.t.Int(4)]}
-			if f.t.Bool(8) {
+			if f.bad() && f.t.Bool(40) {
 				r.ExternalIndex = []uint32{1000, 1<<31 - 1, 1 << 31, 0xffffffff}[f.t.Int(4)]
 			}
-			if f.t.Bool(5) {
+			if f.bad() && f.t.Bool(25) {
 				r.InternalIndex = []uint32{1000, 1 << 31, 0xffffffff}[f.t.Int(3)]
 			}
 			switch f.t.Int(6) {
@@ -724,6 +748,8 @@ func (f *fz) calls() []apiCall {
 
 // adopt registers a wallet that a fuzzed request brought into being, so that
 // later requests can name it (no ledger expectations are attached to it).
+//
+//go:norace
 func (f *fz) adopt(id, mnemonic, pass string) {
 	if id == "" {
 		return
@@ -737,6 +763,7 @@ func (f *fz) adopt(id, mnemonic, pass string) {
 	f.pass = append(f.pass, pass)
 }
 
+//go:norace
 func amtStr(maxwell int64) string {
 	if maxwell < 0 {
 		maxwell = 0
@@ -744,6 +771,7 @@ func amtStr(maxwell int64) string {
 	return fmt.Sprintf("%d.%08d", maxwell/100000000, maxwell%100000000)
 }
 
+//go:norace
 func short(v interface{}) string {
 	if v == nil || (reflect.ValueOf(v).Kind() == reflect.Ptr && reflect.ValueOf(v).IsNil()) {
 		return "{}"
@@ -757,6 +785,8 @@ func short(v interface{}) string {
 
 // walletState describes the state a request met (for the violation text and
 // the coverage counters).
+//
+//go:norace
 func (f *fz) walletState() string {
 	inst := f.inst
 	var parts []string
@@ -788,6 +818,7 @@ func (f *fz) walletState() string {
 	return strings.Join(parts, "+")
 }
 
+//go:norace
 func runC19(w *World, p map[string]int) {
 	t := w.Plan
 	k := drawKnobs(w)
@@ -894,6 +925,8 @@ func runC19(w *World, p map[string]int) {
 }
 
 // followerGone reports (and records) the death of the handler or worker.
+//
+//go:norace
 func (f *fz) followerGone() bool {
 	w, inst := f.w, f.inst
 	if len(w.S.FatalExits) > 0 {
@@ -912,6 +945,7 @@ func (f *fz) followerGone() bool {
 	return false
 }
 
+//go:norace
 func (f *fz) request(calls []apiCall, weights []int) {
 	f.mis = []int{0, 0, 0, 8, 8, 25, 60}[f.t.Int(7)]
 	c := calls[f.t.Weighted(weights)]
@@ -919,6 +953,7 @@ func (f *fz) request(calls []apiCall, weights []int) {
 	f.run(c.name, req, fn)
 }
 
+//go:norace
 func (f *fz) run(name string, req interface{}, fn func() (interface{}, error)) {
 	w := f.w
 	state := f.walletState()
@@ -969,6 +1004,8 @@ func (f *fz) run(name string, req interface{}, fn func() (interface{}, error)) {
 
 // walletFrames lists the first n function names of the wallet's own code in a
 // stack trace.
+//
+//go:norace
 func walletFrames(stack string, n int) string {
 	var out []string
 	for _, l := range strings.Split(stack, "\n") {
